@@ -44,8 +44,12 @@ def ja_annotate(rng, line):
             k = rng.random()
             if k < 0.4:
                 p = p + '_' + rng.choice(['none', 'I1', 'mod'])
-            elif k < 0.7:
+            elif k < 0.6:
                 p = p.replace(']', ']{I1}', 1)
+            elif k < 0.85:
+                # one marker per atom, as the bank writes functor categories: S[..]{I1}\NP[..]{I2}
+                pieces = p.split(']')
+                p = ''.join(piece + (']{I%d}' % (n + 1)) for n, piece in enumerate(pieces[:-1])) + pieces[-1]
         out.append(p)
     return ' '.join(out)
 
